@@ -560,6 +560,11 @@ func (g *game) Start() error {
 		return ErrNoDeck
 	}
 
+	// The deck must cover the hole cards of every player, five community cards and three burned cards
+	if len(g.gs.Meta.Deck) < g.GetPlayerCount()*g.gs.Meta.HoleCardsCount+8 {
+		return ErrNoDeck
+	}
+
 	// Initializing game status
 	g.gs.Status.Pots = make([]*pot.Pot, 0)
 	g.gs.Status.Board = make([]string, 0)
